@@ -3,9 +3,11 @@ import DaskModel.Model.SDL
 import DaskModel.Model.Repart
 import DaskModel.Model.Divs
 import DaskModel.Model.Shuffle
+import DaskModel.Model.SortValuesIO
 import DaskModel.Model.Groupby
 import DaskModel.Model.Join
 import DaskModel.Model.Csv
+import DaskModel.Model.CsvOptsIO
 open Dask
 
 /-- `(sdl (seq…) npartitions n)` / `(sdl (seq…) chunksize c)` ↦ `(ok (divisions…) (locations…))` | `(raised)` -/
@@ -120,6 +122,26 @@ def hToFewer : Handler := handler fun args =>
 def hToMore : Handler := handler fun args =>
   match args with
   | [ls, n] => do pure (okOr ((Repart.toMore (partsOfLengths (← ls.toNats?)) (← n.toNat?)).map idsOf))
+  | _ => none
+
+/-- `(iter-chunks (sizes…) max)` ↦ `(ok (chunk lengths…))` | `(raised)` -/
+def hIterChunks : Handler := handler fun args =>
+  match args with
+  | [sz, m] => do pure (okOr ((Repart.iterChunks (← sz.toNats?) (← m.toNat?)).map SExp.ofNats))
+  | _ => none
+
+/-- `(size-nsplits (usages…) size)` ↦ `(ok (nsplits…))` | `(raised)` -/
+def hSizeNsplits : Handler := handler fun args =>
+  match args with
+  | [us, sz] => do pure (okOr ((Repart.sizeNsplits (← us.toNats?) (← sz.toNat?)).map SExp.ofNats))
+  | _ => none
+
+/-- `(repart-size (partition lengths…) (nsplits…) (chunk lengths…))` ↦ global row positions per new partition -/
+def hRepartSize : Handler := handler fun args =>
+  match args with
+  | [ls, ks, lens] => do
+    pure (okOr ((Repart.repartitionSizeWith Repart.splitPositions (partsOfLengths (← ls.toNats?)) (← ks.toNats?)
+      (← lens.toNats?)).map idsOf))
   | _ => none
 
 /-! ## C41 -/
@@ -368,6 +390,7 @@ def table : List (String × Handler) := [("sdl", hSdl), ("sdl-stats", hSdlStats)
   ("truthful", hTruthful), ("locslice-divs", hLocSliceDivs), ("partitions-divs", hPartitionsDivs), ("concat-divs", hConcatDivs),
   ("tofewer-bounds", hToFewerBounds), ("split-positions", hSplitPositions), ("nsplits", hNsplits),
   ("lower-kind", hLowerKind), ("div-layer", hDivLayer), ("div-layer-ok", hDivLayerOK), ("repart-divs", hRepartDivs),
-  ("tofewer", hToFewer), ("tomore", hToMore)]
+  ("tofewer", hToFewer), ("tomore", hToMore),
+  ("iter-chunks", hIterChunks), ("size-nsplits", hSizeNsplits), ("repart-size", hRepartSize)] ++ Dask.CsvOpts.handlers ++ Dask.SortValuesIO.handlers
 
 def main : IO Unit := runDriver table
